@@ -220,7 +220,16 @@ func siteKey(f *ScopeFunc, what string) string {
 	if os.Getenv("J5CHECK_OLDKEYS") != "" {
 		return fmt.Sprintf("%s | %s", f.Name, what)
 	}
-	return fmt.Sprintf("%s | %s", f.Name, normLocals(f, what))
+	k := fmt.Sprintf("%s | %s", f.Name, normLocals(f, what))
+	if os.Getenv("J5CHECK_KEYMAP") != "" {
+		os.Setenv("J5CHECK_OLDNORM", "1")
+		oldk := fmt.Sprintf("%s | %s", f.Name, normLocals(f, what))
+		os.Unsetenv("J5CHECK_OLDNORM")
+		if oldk != k {
+			fmt.Fprintf(os.Stderr, "KEYMAP\t%s\t%s\n", oldk, k)
+		}
+	}
+	return k
 }
 
 var localNamesCache = map[*ScopeFunc]map[string]string{}
@@ -297,8 +306,51 @@ func normLocals(f *ScopeFunc, what string) string {
 	}
 	var b strings.Builder
 	i := 0
+	skipStrings := os.Getenv("J5CHECK_OLDNORM") == ""
 	for i < len(what) {
 		c := what[i]
+		// string and character literals are text, not code: a word in an error message that
+		// happens to be the name of a local is left alone
+		if skipStrings && (c == '"' || c == '`' || c == '\'') {
+			j := i + 1
+			for j < len(what) && what[j] != c {
+				if what[j] == '\\' && c != '`' {
+					j++
+				}
+				j++
+			}
+			if j < len(what) {
+				j++
+			} else {
+				j = len(what) // cut-off literal (keys truncate long texts): the rest is text
+			}
+			b.WriteString(what[i:j])
+			i = j
+			continue
+		}
+		// a type already written in ‹…› (by core.NormExpr) is left alone
+		if strings.HasPrefix(what[i:], "‹") {
+			depth, j := 0, i
+			for j < len(what) {
+				if strings.HasPrefix(what[j:], "‹") {
+					depth++
+					j += len("‹")
+					continue
+				}
+				if strings.HasPrefix(what[j:], "›") {
+					depth--
+					j += len("›")
+					if depth == 0 {
+						break
+					}
+					continue
+				}
+				j++
+			}
+			b.WriteString(what[i:j])
+			i = j
+			continue
+		}
 		if c == '_' || c >= 'a' && c <= 'z' || c >= 'A' && c <= 'Z' {
 			j := i
 			for j < len(what) && (what[j] == '_' || what[j] >= 'a' && what[j] <= 'z' || what[j] >= 'A' && what[j] <= 'Z' || what[j] >= '0' && what[j] <= '9') {
